@@ -85,6 +85,9 @@ class Sim:
         self.steps = 0
         self.step_cap = step_cap
         self.known: List[Tuple[Tuple[str, str, str, str], Any]] = []  # tolerated (known) violations seen
+        # set by a property while it feeds an unusual-but-legal input: the library may refuse it cleanly
+        # (ValueError/TypeError/... raised by the call), it may not answer wrongly
+        self.exotic: Optional[str] = None
 
     # ---- streams -------------------------------------------------------
     def rng(self, *labels: Any) -> random.Random:
